@@ -157,7 +157,7 @@ def run(ctx: Ctx) -> None:
 
     acct_rule(ctx, "R11.acct", only=lambda f: f.name == "read_instruction")
     hit_rule(ctx, "R11.hit")
-    load_rules(ctx, "R11.load")
+    load_rules(ctx, "R11.load", icache_only=True)
 
     r = ctx.rule("R11.deleg", "the cache system delegates program storage to the lower instruction memory")
     for name in ("instruction_at_address", "has_instructions", "get_representation", "get_address_range",
